@@ -368,10 +368,17 @@ def run(run):
         kmax = int(domain(dtname, "exp") / ln2) + 1
         W = 64 if thorough else 8
         bits.append(neighbourhood_bits(dtname, [k * ln2 for k in range(0, kmax + 1)] + [(k + 0.5) * ln2 for k in range(0, kmax + 1)], W))
+        # edges of the permitted remainder band: just outside |frac - 1/2| = 0.05 the only admissible k is the nearest
+        # integer, so a rounding step of k that is displaced (a perturbed 1/ln2, a biased rounding) shows as |r+c| > 0.55 ln2
+        # there and nowhere closer to (k+1/2)*ln2; plus a lattice of the fractional part for every k
+        phis = [0.4495, 0.5505] + [j / 16 for j in range(1, 16)]
+        bits.append(neighbourhood_bits(dtname, [(k + ph) * ln2 for k in range(0, kmax + 1) for ph in phis], 2 if thorough else 1))
+        run.counters[f"exp_band_edge_points_{dtname}"] = f"(k+phi)*ln2, k<={kmax}, phi in 0.4495, 0.5505, j/16, +-{2 if thorough else 1} ULP, both signs"
         K = (1 << 10) if thorough else (1 << 8)
         kk = np.arange(0, K)
         run.counters[f"trig_neighbourhoods_{dtname}"] = f"k<{K}, +-{16 if thorough else 4} ULP"
         bits_trig = [neighbourhood_bits(dtname, (kk * pio2).tolist() + ((kk + 0.5) * pio2).tolist(), 16 if thorough else 4)]
+        bits_trig.append(neighbourhood_bits(dtname, [(k + ph) * pio2 for k in range(0, K) for ph in (0.4495, 0.5505, 0.25, 0.75)], 1))
         # pi/4 transition
         bits_trig.append(neighbourhood_bits(dtname, [pio2 / 2], 64))
         hc = []
